@@ -323,6 +323,16 @@ func podDoc(ns, name string, labels map[string]string, ports []corev1.ContainerP
 		api := "apps/v1"
 		p.OwnerReferences = []metav1.OwnerReference{{APIVersion: api, Kind: ownerKind, Name: owner, UID: types.UID("u-" + owner), Controller: bptr(true)}}
 	}
+	if strings.HasSuffix(ownerKind, "+refs") && owner != "" {
+		// further, non-controller references around the controller's (order in the list means nothing)
+		kind := strings.TrimSuffix(ownerKind, "+refs")
+		ctl := metav1.OwnerReference{APIVersion: "apps/v1", Kind: kind, Name: owner, UID: types.UID("u-" + owner), Controller: bptr(true)}
+		p.OwnerReferences = []metav1.OwnerReference{
+			{APIVersion: "v1", Kind: "ConfigMap", Name: "not-the-controller", UID: "u-cm"},
+			{APIVersion: "batch/v1", Kind: "Job", Name: "helper", UID: "u-job", Controller: bptr(false)},
+			ctl,
+		}
+	}
 	if withStatus {
 		p.Status.HostIP = "192.168.49.2"
 		p.Status.PodIPs = []corev1.PodIP{{IP: "10.244.0.7"}}
@@ -599,7 +609,7 @@ func genWorld(r *rng, f Features) *World {
 			switch {
 			case f.SharedOwner && r.chance(1, 2):
 				owner := fmt.Sprintf("own%d", i)
-				okind := pick(r, []string{"ReplicaSet", "StatefulSet", "DaemonSet"})
+				okind := pick(r, []string{"ReplicaSet", "StatefulSet", "DaemonSet", "ReplicaSet+refs"})
 				for k, n := 0, r.between(2, 3); k < n; k++ {
 					name := fmt.Sprintf("bp%d-%c", i, 'x'+k)
 					pp := ports
@@ -640,6 +650,15 @@ func genWorld(r *rng, f Features) *World {
 	if f.BANP {
 		w.HasAdmin = true
 		w.Docs = append(w.Docs, randBANP(r, &f, "default"))
+	}
+	if f.Ingress && r.chance(1, 3) {
+		// the analyzer models the ingress controller as a pod of namespace "ingress-controller-ns": policies
+		// (and sometimes a workload) may really live in a namespace of that name
+		w.Docs = append(w.Docs, randNetpol(r, &f, "ingress-controller-ns", "npic"))
+		if r.chance(1, 3) {
+			w.Docs = append(w.Docs, workloadDoc(r, wl{"ingress-controller-ns", "wic", "Deployment", randLabels(r, 1), randContainerPorts(r)}))
+			w.Workloads = append(w.Workloads, "ingress-controller-ns/wic")
+		}
 	}
 	if f.Ingress && len(targets) > 0 {
 		for i, n := 0, r.between(1, 2); i < n; i++ {
